@@ -14,6 +14,8 @@ package main
 //   N                         fresh node (raft + stores + FSM + api.HTTP), no config posted
 //   F:<revhdr>:<body>:<cred>  POST /config   (revhdr hex or "!" = no header; cred ok|none|bad)
 //   G                         GET /config
+//   H:<rev>:<body>            propose a raw Config entry with revision <rev> (decimal) directly to raft (a stale / future /
+//                             duplicate update that a lagging handler let through, DESIGN D20)
 //   C:<k>                     POST /robustirc/v1/session -> slot k
 //   I:<k>:<line>              POST one IRC line as slot k with a fresh client message id
 //   P:<k>:<body>              POST a raw body to slot k's message route (correct secret)
@@ -695,6 +697,49 @@ func (r *verifApiRun) op(tok string) (obs string) {
 		rev, base, banned := verifApiConfigDigest(ircServer)
 		return fmt.Sprintf("F|h=%s|b=%s|tp=%s|status=%d|class=%s|%s|rev=%d|base=%s|banned=%s", a[1], verifApiHex(body), tp, res.status,
 			verifApiClass(res.status, res.body), tail, rev, base, banned)
+
+	case "H":
+		// a raw Config entry with a chosen revision proposed directly to raft: what the log contains when a
+		// handler that lagged behind the log (D20) accepted a stale revision, or when an update is proposed twice
+		hrev, _ := strconv.ParseUint(a[1], 10, 64)
+		body := verifApiUnhex(a[2])
+		tp := "!"
+		if parsed, perr := config.FromString(body); perr == nil {
+			var keys, bl []string
+			for k := range parsed.Banned {
+				keys = append(keys, k)
+			}
+			sort.Strings(keys)
+			for _, k := range keys {
+				bl = append(bl, verifApiHex(k)+"="+verifApiHex(parsed.Banned[k]))
+			}
+			b := strings.Join(bl, ",")
+			if b == "" {
+				b = "-"
+			}
+			tp = verifApiBaseDigest(parsed) + "/" + b
+		}
+		msg := &robust.Message{Type: robust.Config, Data: body, Revision: hrev, UnixNano: time.Now().UnixNano()}
+		pbytes, err := proto.Marshal(msg.ProtoMessage())
+		if err != nil {
+			return "H|err=" + verifApiHex(err.Error())
+		}
+		verifApiBarrier()
+		dg := r.stateDigest()
+		d := r.begin()
+		f := node.Apply(append([]byte{'p'}, pbytes...), 10*time.Second)
+		ferr := f.Error()
+		refused := false // what applyMessageWait would turn into HTTP 400 for the proposer
+		if ferr == nil {
+			_, refused = f.Response().(error)
+		}
+		tail := r.end(d)
+		same := 0
+		if r.stateDigest() == dg {
+			same = 1
+		}
+		rev, base, banned := verifApiConfigDigest(ircServer)
+		return fmt.Sprintf("H|hrev=%d|b=%s|tp=%s|err=%v|refused=%v|%s|rev=%d|base=%s|banned=%s|same=%d", hrev, verifApiHex(body), tp, ferr != nil, refused, tail, rev, base, banned, same)
 
 	case "G":
 		res := r.do("GET", "/config", nil, &[2]string{"robustirc", verifApiPassword}, nil, 20*time.Second)
